@@ -1293,13 +1293,14 @@ impl HnswBackend {
                     // after it is still available, but segments covered by the newer (now
                     // unreadable) snapshot may already have been compacted. Remember the
                     // sequence range the retained WAL has to cover; strict mode verifies it
-                    // after replay.
-                    if recovered_from_fallback {
-                        if let Some(committed_seq) = manifest.latest_snapshot_wal_seq {
-                            if committed_seq > snapshot.last_wal_seq {
-                                fallback_required_seq_range =
-                                    Some((snapshot.last_wal_seq, committed_seq));
-                            }
+                    // after replay. The same holds when the snapshot that was loaded is older
+                    // than the one MANIFEST committed without any fallback having happened
+                    // (a damaged `latest_snapshot` name that happens to be the name of an
+                    // older snapshot still on disk).
+                    if let Some(committed_seq) = manifest.latest_snapshot_wal_seq {
+                        if committed_seq > snapshot.last_wal_seq {
+                            fallback_required_seq_range =
+                                Some((snapshot.last_wal_seq, committed_seq));
                         }
                     }
                     let snapshot_has_docs =
